@@ -90,6 +90,21 @@ def rule_obligations():
         detail5 = ("the emitted symbol is named ensure_valid_identifier(name_tpl.format(name=name)); with the contract of ensure_valid_identifier (identifiers that are not keywords come back unchanged) "
                    "that is the name listed in __all__") if ok5 else "get_emit_kwarg names the symbol by: %s" % [ast.unparse(c)[:80] for c in calls]
     obs.append(("get_emit_kwarg/symbol-named-by-the-template-through-ensure_valid_identifier", ok5, detail5))
+    # G6: with a directory as input mapping EVERY entry of the listing is handed to file_to_input_mapping -- the listing goes
+    # through path.join only (no filter on names): "one symbol per entry of the input mapping"
+    gf, _s, _p = extract.find_def("cdd.compound.gen", "gen")
+    ok6, detail6 = None, "gen not found"
+    if gf is not None:
+        lds = [n for n in ast.walk(gf) if isinstance(n, ast.Call) and ast.unparse(n.func) in ("listdir", "os.listdir")]
+        par = {}
+        for n in ast.walk(gf):
+            for ch in ast.iter_child_nodes(n):
+                par[id(ch)] = n
+        ups = [ast.unparse(par[id(l)]) for l in lds if id(l) in par]
+        ok6 = len(lds) == 1 and ups == ["map(partial(path.join, input_mapping), listdir(input_mapping))"] and "partial(file_to_input_mapping, parse_name=parse_name)" in ast.unparse(gf)
+        detail6 = ("the directory listing is consumed as map(partial(path.join, input_mapping), listdir(input_mapping)) and mapped through file_to_input_mapping: every file contributes" if ok6
+                   else "the directory listing is consumed as: %s" % [u[:160] for u in ups])
+    obs.append(("gen/directory-mode-hands-every-listed-file-to-file_to_input_mapping", ok6, detail6))
     return obs
 
 
@@ -127,6 +142,12 @@ def rule_replay(name):
         r = guard_case(0)  # the CLI onto an existing file, three spellings of the path
         bad = [w for k, w in r if k != "raises"]
         return {"case": ["cli", "gen", 1, None, False], "what": bad[0]} if bad else None
+    if name.startswith("gen/directory-mode"):
+        for case in (("class", "{name}Gen", 2, None, False, False, "dir"), ("class", "{name}Gen", 8, None, False, False, "dir"), ("json_schema", "{name}Gen", 5, None, False, False, "dir")):
+            bad = [w for k, w in gen_case(case) if k != "raises"]
+            if bad:
+                return {"case": list(case), "what": bad[0]}
+        return None
     if name.startswith("get_functions_and_classes/") or name.startswith("get_emit_kwarg/"):
         # up to 8 entries: the last three have a private, a lower-case and a one-letter name
         for case in (("class", "{name}Gen", 2, None, False), ("class", "{name}Gen", 2, None, False, True), ("json_schema", "{name}", 12, None, False), ("class", "Cfg{name}", 12, None, False), ("class", "{name}", 12, None, False), ("argparse", "{name}Gen", 2, None, False)):
@@ -158,11 +179,20 @@ def gen_case(case):
 
     emit, tpl, nsym, prepend, imports_ff = case[:5]
     infer_imports = bool(case[5]) if len(case) > 5 else False  # --emit-and-infer-imports
+    dir_mode = len(case) > 6 and case[6] == "dir"  # the input mapping is a DIRECTORY: every file in it contributes its entries
     d = tempfile.mkdtemp(prefix="cddvc_c19_")
     try:
         srcs = [class_src(i) for i in range(nsym)]
         inp = os.path.join(d, "inp.py")
         open(inp, "wt").write("from typing import Optional\n\n\n" + "\n\n".join(s for s, _n in srcs) + "\n\n__all__ = %r\n" % [n for _s, n in srcs])
+        if dir_mode:
+            # one file per entry; file names a directory of sources really has: versioned, generated, with dashes
+            os.unlink(inp)
+            inp = os.path.join(d, "inputs")
+            os.mkdir(inp)
+            for i_, (s_, n_) in enumerate(srcs):
+                fname = ("users.py", "orders.v2.py", "items.py", "models.generated.py", "legacy-api.py", "x.py", "a.b.c.py", "z_last.py")[i_ % 8]
+                open(os.path.join(inp, fname if i_ < 8 else "f%d.py" % i_), "wt").write("from typing import Optional\n\n\n" + s_ + "\n\n__all__ = %r\n" % [n_])
         imp = None
         if imports_ff:
             imp = os.path.join(d, "imports.py")
@@ -191,6 +221,8 @@ def gen_case(case):
                 return [("invalid-output", "json_schema output is not JSON: %s" % ex)]
             schemas = [x for d_ in docs for x in (d_["schemas"] if isinstance(d_, dict) and "schemas" in d_ else [d_])]
             ids = [x.get("$id") for x in schemas]
+            if dir_mode:
+                ids, names = sorted(map(str, ids)), sorted(names)  # the order of a directory listing is not specified
             return [] if ids == names else [("symbol-count", "JSON-schema $ids %r for entries %r" % (ids, names))]
         probs = []
         try:
@@ -207,7 +239,11 @@ def gen_case(case):
                 defined.append(n.name)
             elif isinstance(n, ast.Assign):
                 defined.extend(t.id for t in n.targets if isinstance(t, ast.Name))
-        if alls != names:
+        if dir_mode and alls is not None:
+            alls, names_cmp = sorted(alls), sorted(names)
+        else:
+            names_cmp = names
+        if alls != names_cmp:
             probs.append(("__all__", "__all__ is %r, expected exactly %r" % (alls, names)))
         miss = [x for x in names if x not in defined]
         if miss:
@@ -216,7 +252,9 @@ def gen_case(case):
             import cdd.class_.parse
 
             for (src, n), gname in zip(srcs, names):
-                node = next(x for x in mod.body if isinstance(x, ast.ClassDef) and x.name == gname)
+                node = next((x for x in mod.body if isinstance(x, ast.ClassDef) and x.name == gname), None)
+                if node is None:
+                    continue
                 try:
                     with contextlib.redirect_stdout(io.StringIO()), contextlib.redirect_stderr(io.StringIO()):
                         a = cdd.class_.parse.class_(node)
@@ -260,6 +298,8 @@ def bounded(tier):
     cases = [c for c in cases if not (c[3] and not c[4])]  # --prepend only matters together with --imports-from-file
     # import inference on (the generated classes need typing.Optional only: more than one inferred import line crashes on the pinned tree)
     cases += [("class", "{name}Gen", n_, None, False, True) for n_ in (1, 2, 4)]
+    # directory mode: one source file per entry, realistic file names (several dots, dashes)
+    cases += [(e_, "{name}Gen", n_, None, False, False, "dir") for e_ in ("class", "json_schema") for n_ in (2, 5, 8)]
     # the identity template over every kind of name (private, lower-case, one letter, names of builtins)
     cases += [(e_, "{name}", 12, None, False) for e_ in (emits if tier == "thorough" else ["class", "json_schema"])]
     res = common.pmap(gen_case, cases)
@@ -315,7 +355,7 @@ def main(tier, write_baseline=False):
         n, raised, fails = bounded(tier)
         run.bounded.append({
             "name": "gen over an option matrix + the CLI guard on an existing file (bounded, NOT counted as proved)",
-            "bound": "parse kind class x emit {class, argparse, json_schema, sqlalchemy, sqlalchemy_table} x 2 name templates x 1..%d symbols (+ the identity template over 12 names incl. private / lower-case / builtin names) x prepend {none, import, docstring, expression statement} x imports-from-file {off, typing import, __future__ import}, import inference off (+ 3 runs with --emit-and-infer-imports on inputs that need typing.Optional only); 3 CLI runs onto an existing file (plain, ./-spelled and ~-spelled path). %d runs raised (out of domain: function/pydantic emit and import inference crash on the pinned tree)" % (4 if tier == "quick" else 5, raised),
+            "bound": "parse kind class x emit {class, argparse, json_schema, sqlalchemy, sqlalchemy_table} x 2 name templates x 1..%d symbols (+ the identity template over 12 names incl. private / lower-case / builtin names) x prepend {none, import, docstring, expression statement} x imports-from-file {off, typing import, __future__ import}, import inference off (+ 3 runs with --emit-and-infer-imports on inputs that need typing.Optional only); 6 runs with a DIRECTORY as input mapping (one file per entry, file names with several dots / dashes); 3 CLI runs onto an existing file (plain, ./-spelled and ~-spelled path). %d runs raised (out of domain: function/pydantic emit and import inference crash on the pinned tree)" % (4 if tier == "quick" else 5, raised),
             "rule": "one gen call per option combination; non-trivial = gen returns",
             "evaluations": n, "distinct_nontrivial": n - raised,
             "failures": [{"kind": k[0], "emit": k[1], "what": v[1][:300]} for k, v in list(fails.items())[:5]],
